@@ -96,6 +96,12 @@ def owned_buffers(chk):
         chk.ob(rid, rel, cls, f"in-place buffers {sorted(buffers) or 'none'} are bound to fresh allocations only", not off,
                node=off[0][2] if off else None, fingerprint=f"owned-buffers:{cls}", expected="self.<buffer> = np.empty(...) once",
                found=[f"{cls}.{m}: self.{a} = {v} (filled in place by {buffers[a]})" for m, a, _, v in off][:3])
+        from ..effects import stale_buffer_flags
+        stale = stale_buffer_flags(mod, cls)
+        chk.ob(rid, rel, cls, "a work buffer that is refilled only when a remembered key changes is not overwritten behind that key's back "
+               "(every other method that fills the buffer resets the key)", not stale, node=stale[0][4] if stale else None,
+               fingerprint=f"buffer-validity:{cls}", expected="reset the key wherever the buffer is written, or refill unconditionally",
+               found=[f"{cls}.{o} writes self.{B} without resetting self.{K} (which {cls}.{m} trusts)" for K, B, m, o, _ in stale][:3])
 
 
 def run(chk):
